@@ -40,7 +40,7 @@ CUTOFF = (2025, 6, 18)
 NEIGH = ["2025-06-17", "2025-06-18", "2025-06-19", "2025-05-18", "2025-07-18", "2024-06-18", "2026-06-18", "2025-06-01", "2025-06-30",
          "2025-01-01", "2025-12-31", "2024-12-31", "2026-01-01", "2025-05-31", "2025-07-01", "2025-06-08", "2025-06-28", "2025-10-01", "2025-02-19"]
 SUPPORTED = ["2025-06-18", "2025-03-26", "2024-11-05"]
-INVALID_MEMBERS = ["int", "str", "null", "id_only", "both_result_error", "error_no_code", "method_int", "nested_nonempty", "nested_empty", "params_scalar", "id_float", "id_array", "id_object"]
+INVALID_MEMBERS = ["int", "str", "null", "id_only", "both_result_error", "error_no_code", "method_int", "nested_nonempty", "nested_empty", "params_scalar", "id_float", "id_array", "id_object", "deep_invalid", "surrogate_invalid"]
 
 
 def _rand_version(rng):
@@ -72,6 +72,11 @@ def _single_member(rng, k):
     return m
 
 
+_DEEP = "leaf"
+for _i in range(300):
+    _DEEP = [_DEEP]
+
+
 def member_json(m):
     k = m["k"]
     if "valid" in m:
@@ -88,7 +93,10 @@ def member_json(m):
             # ids that are neither a string nor an integer (MCP allows nothing else)
             "id_float": {"jsonrpc": "2.0", "id": k + 0.5, "method": "roots/list"},
             "id_array": {"jsonrpc": "2.0", "id": [k], "result": {"k": k}},
-            "id_object": {"jsonrpc": "2.0", "id": {"k": k}, "method": "roots/list"}}[m["invalid"]]
+            "id_object": {"jsonrpc": "2.0", "id": {"k": k}, "method": "roots/list"},
+            # invalid AND awkward to re-serialise (the optional fast encoder refuses both; the stdlib does not)
+            "deep_invalid": {"jsonrpc": "2.0", "id": k, "method": 7, "deep": _DEEP},
+            "surrogate_invalid": {"jsonrpc": "2.0", "id": k, "method": 7, "name": "half \ud83d emoji"}}[m["invalid"]]
 
 
 BOI_BATCH = [{"jsonrpc": "2.0", "method": "notifications/message", "params": {"data": "boi-a"}},
